@@ -97,10 +97,10 @@ func c02Segment(sc *WF, seg []Ev) string {
 
 func c02Body(sc *WF) Verdict {
 	x := newWfExec(sc)
+	// (scenarios may carry DeadlineMs from earlier versions of this check: contexts are outside
+	// C02's quantifier - an implementation may legitimately stop retrying when the deadline it was
+	// handed is too close - so every run gets context.Background())
 	var ref *wfExec
-	if sc.DeadlineMs > 0 {
-		ref = newWfExec(sc)
-	}
 	nontrivial := false
 	classes := map[string]bool{}
 	for r := 0; r < sc.runs(); r++ {
@@ -117,6 +117,9 @@ func c02Body(sc *WF) Verdict {
 			ctx = c2
 		}
 		rr := x.run(ctx)
+		if runaway(rr.Panic) {
+			return ok(false, "scenario-did-not-terminate") // C03/C10 territory, see runaway()
+		}
 		if rr.Panic != "" {
 			return bad("C02:panic", "run panicked: %s", rr.Panic)
 		}
@@ -242,9 +245,6 @@ func TestC02(t *testing.T) {
 	g := wfGen{MaxLeaves: 4, MaxFlows: 2, Actions: []string{"a", "b", ""}, PErr: 20, PExecErr: 550, MaxN: 8, Waits: true, MaxVisits: 3, FuelMax: 10, MaxRuns: 2}
 	rapidPart(r, "rand-flow", r.pick(2000, 30000), func(rt *rapid.T) WF {
 		w := g.gen(rt)
-		if rapid.Bool().Draw(rt, "deadline") {
-			w.DeadlineMs = rapid.SampledFrom([]int{1, 7, 60, 5000, 4000000}).Draw(rt, "slack")
-		}
 		return w
 	}, checkC02)
 	c02Batch(r)
